@@ -423,7 +423,8 @@ DescriptionsDelimited(inp, out) ==
 \* Gap grammar (a small recogniser over the bytes between two lexemes): blanks and line ends; "#" up
 \* to the end of line; "###" ... "###"; "//" directly before an annotation lexeme; "/*" before and "*/"
 \* after one.  A comment that begins with "###" is a block comment and runs to the next "###" - except on the line
-\* of an annotation, where every "#" starts a one-line comment (al: an annotation lexeme ended earlier on this line).
+\* of a "//" annotation, which the "#" ends: there every "#" starts a one-line comment (al: a "//" annotation lexeme ended
+\* earlier on this line; after the "*/" of a block annotation the ordinary rule holds).
 RECURSIVE GapOK(_, _, _, _, _, _)
 GapOK(inp, i, j, nextIsAnnot, prevIsAnnot, al) ==      \* bytes i..j (0-based, inclusive) form the gap
   IF i > j THEN TRUE
@@ -439,7 +440,7 @@ GapOK(inp, i, j, nextIsAnnot, prevIsAnnot, al) ==      \* bytes i..j (0-based, i
                            /\ GapOK(inp, (CHOOSE k \in ends : \A m \in ends : k <= m) + 3, j, nextIsAnnot, FALSE, FALSE)
             IN IF triple /\ ~al THEN asBlock ELSE asLine
        ELSE IF c = 47 /\ ByteAt(inp, i + 1) \in {47, 42} /\ i + 1 = j /\ nextIsAnnot THEN TRUE
-       ELSE IF c = 42 /\ ByteAt(inp, i + 1) = 47 /\ prevIsAnnot THEN GapOK(inp, i + 2, j, nextIsAnnot, FALSE, TRUE)
+       ELSE IF c = 42 /\ ByteAt(inp, i + 1) = 47 /\ prevIsAnnot THEN GapOK(inp, i + 2, j, nextIsAnnot, FALSE, FALSE)
        ELSE FALSE
 
 OnlyTriviaSkipped(inp, out, upto) ==     \* upto: number of input bytes the scanner has consumed
